@@ -26,7 +26,25 @@ global size_of usize == 8;
 //@ replace R28 @<enum SExpParseResult {>@ => @<pub enum SExpParseResult {>@
 //@ end
 
+impl SExp {
+//@ extract fn loc from src/compiler/sexp.rs in impl SExp
+//@ sig r
+    ensures r == (match *self { SExp::Nil(l) => l, SExp::Cons(l, _, _) => l, SExp::Integer(l, _) => l, SExp::QuotedString(l, _, _) => l, SExp::Atom(l, _) => l })
+//@ end
+}
+pub open spec fn sloc(s: SExp) -> Srcloc { match s { SExp::Nil(l) => l, SExp::Cons(l, _, _) => l, SExp::Integer(l, _) => l, SExp::QuotedString(l, _, _) => l, SExp::Atom(l, _) => l } }
+
 impl Srcloc {
+// proved in unit `srcloc` (same contract)
+//@ extract fn ext from src/compiler/srcloc.rs in impl Srcloc
+//@ stub
+//@ sig r
+    requires self.col < usize::MAX, other.col < usize::MAX
+    ensures
+        other.file != self.file ==> r == *self,
+        other.file == self.file ==> sstart(r) == pmin(sstart(*self), sstart(*other))
+            && ple(send(r), pmax(send(*self), send(*other))) && r.file == self.file,
+//@ end
 // proved in unit `srcloc` (same contract)
 //@ extract fn advance from src/compiler/srcloc.rs in impl Srcloc
 //@ stub
@@ -46,6 +64,16 @@ pub uninterp spec fn step_spec(loc: Srcloc, st: SExpParseState, ch: u8) -> SExpP
 //@ end
 //@ extract fn make_atom from src/compiler/sexp.rs
 //@ stub
+//@ end
+
+//@ note make_cons: the location given to a cons cell built by the reader starts at the earlier of its two children and never reaches beyond the later end of the two (same file), so a list's location stays within the text spanned by its elements
+//@ extract fn make_cons from src/compiler/sexp.rs
+//@ canary loc_of_tail_only @<a.loc().ext(&b.loc())>@ => @<b.loc().ext(&b.loc())>@
+//@ sig r
+    requires sloc(*a).col < usize::MAX, sloc(*b).col < usize::MAX
+    ensures r matches SExp::Cons(l, ra, rb) && ra == a && rb == b
+        && (sloc(*b).file == sloc(*a).file ==> sstart(l) == pmin(sstart(sloc(*a)), sstart(sloc(*b))) && ple(send(l), pmax(send(sloc(*a)), send(sloc(*b)))))
+        && (sloc(*b).file != sloc(*a).file ==> l == sloc(*a)),
 //@ end
 
 //@ extract struct ParsePartialResult from src/compiler/sexp.rs
